@@ -175,3 +175,76 @@ Definition locale_dependent_functions : list text :=
    [70; 73; 88; 69; 68];                                  (* FIXED *)
    [68; 65; 84; 69; 86; 65; 76; 85; 69];                  (* DATEVALUE *)
    [84; 73; 77; 69; 86; 65; 76; 85; 69]].                 (* TIMEVALUE *)
+
+(* ---- conditional-format rules: every formula slot is stored in English ------------------------- *)
+(* [Model::user_formula_to_internal] (model.rs:435) on tokens: parse in the active configuration,
+   on a parse error parse as English, on a second error fail; store to_english_string of the tree.
+   (Tokens after a complete expression are ignored by the parser.) *)
+Section ToInternal.
+  Variable m_act : pmode.  Variable nm_act : names.     (* active locale / language, A1 form *)
+  Variable m_en : pmode.   Variable nm_en : names.      (* English A1 form, same context cell *)
+  Variable env : penv.
+  Definition user_formula_to_internal (ts : list token) : outcome (list token) :=
+    match parse m_act nm_act env ts with
+    | Some (e, _) => Ok (print m_en nm_en e)
+    | None =>
+      match parse m_en nm_en env ts with
+      | Some (e, _) => Ok (print m_en nm_en e)
+      | None => Err
+      end
+    end.
+
+  (* Cfvo: only the Formula variant carries a formula *)
+  Inductive cfvo := CvFormula (f : list token) | CvOther (tag : Z).
+  (* CfRuleInput, the formula slots of every kind (cf_rule_input_to_internal, conditional_formatting.rs:1416) *)
+  Inductive cf_input :=
+  | CfCellIs (formula : list token) (formula2 : option (list token))
+  | CfFormula (formula : list token)
+  | CfColorScale (thresholds : list cfvo)
+  | CfDataBar (min max : option cfvo)
+  | CfIconSet (thresholds : list cfvo)
+  | CfIconRating (thresholds : list cfvo)
+  | CfOther (tag : Z).                               (* the kinds without formula strings *)
+
+  Definition cfvo_to_internal (c : cfvo) : outcome cfvo :=
+    match c with
+    | CvFormula f => match user_formula_to_internal f with Ok f' => Ok (CvFormula f') | Err => Err | Panic => Panic end
+    | CvOther t => Ok (CvOther t)
+    end.
+  Fixpoint cfvos_to_internal (l : list cfvo) : outcome (list cfvo) :=
+    match l with
+    | [] => Ok []
+    | c :: r => obind (cfvo_to_internal c) (fun c' => obind (cfvos_to_internal r) (fun r' => Ok (c' :: r')))
+    end.
+  Definition opt_to_internal {A} (f : A -> outcome A) (o : option A) : outcome (option A) :=
+    match o with None => Ok None | Some a => obind (f a) (fun a' => Ok (Some a')) end.
+
+  (* the arms in the order of the code; a failing slot fails the whole rule (the `?`s) *)
+  Definition cf_rule_input_to_internal (r : cf_input) : outcome cf_input :=
+    match r with
+    | CfCellIs f f2 =>
+        obind (user_formula_to_internal f) (fun f' =>
+        obind (opt_to_internal user_formula_to_internal f2) (fun f2' => Ok (CfCellIs f' f2')))
+    | CfFormula f => obind (user_formula_to_internal f) (fun f' => Ok (CfFormula f'))
+    | CfColorScale ts => obind (cfvos_to_internal ts) (fun ts' => Ok (CfColorScale ts'))
+    | CfDataBar mn mx =>
+        obind (opt_to_internal cfvo_to_internal mn) (fun mn' =>
+        obind (opt_to_internal cfvo_to_internal mx) (fun mx' => Ok (CfDataBar mn' mx')))
+    | CfIconSet ts => obind (cfvos_to_internal ts) (fun ts' => Ok (CfIconSet ts'))
+    | CfIconRating ts => obind (cfvos_to_internal ts) (fun ts' => Ok (CfIconRating ts'))
+    | CfOther t => Ok (CfOther t)
+    end.
+
+  (* the formula slots of a rule, in order *)
+  Definition cfvo_slots (l : list cfvo) : list (list token) :=
+    flat_map (fun c => match c with CvFormula f => [f] | CvOther _ => [] end) l.
+  Definition opt_list {A} (o : option A) : list A := match o with Some a => [a] | None => [] end.
+  Definition cf_slots (r : cf_input) : list (list token) :=
+    match r with
+    | CfCellIs f f2 => f :: opt_list f2
+    | CfFormula f => [f]
+    | CfColorScale ts | CfIconSet ts | CfIconRating ts => cfvo_slots ts
+    | CfDataBar mn mx => cfvo_slots (opt_list mn ++ opt_list mx)
+    | CfOther _ => []
+    end.
+End ToInternal.
